@@ -118,7 +118,7 @@ def expected : List (String × String × String × String) := [
   ("inscription_updater.rs", "index_inscriptions", "expect", ".expect(\"\");"),
   -- model: indexInscriptions `total_input_value - total_output_value` — discharged by Σ out ≤ Σ in (validChain.conserves) + value invariant; never reached for a coinbase (no new flotsam on a null input)
   ("inscription_updater.rs", "index_inscriptions", "arith", "*fee = (total_input_value - total_output_value) / u64::from(id_counter);"),
-  -- model: indexInscriptions `division by zero` — a new flotsam implies id_counter ≥ 1 (proved: c16_fee_divisor_pos)
+  -- model: indexInscriptions `division by zero` — a new flotsam implies id_counter ≥ 1 (proved: `ScanOk` through scanOld/scanNew/scanInputs, used in `indexInscriptions_U`)
   ("inscription_updater.rs", "index_inscriptions", "div", "*fee = (total_input_value - total_output_value) / u64::from(id_counter);"),
   -- ≤ Σ out ≤ 21M BTC
   ("inscription_updater.rs", "index_inscriptions", "arith", "let end = output_value + txout.value.to_sat();"),
@@ -128,7 +128,7 @@ def expected : List (String × String × String × String) := [
   ("inscription_updater.rs", "index_inscriptions", "arith", "offset: flotsam.offset - output_value,"),
   -- `peek()` returned Some just above
   ("inscription_updater.rs", "index_inscriptions", "unwrap", "inscriptions.next().unwrap(),"),
-  -- model: updateInscriptionLocation `output_utxo_entries[vout]` — vout < tx.output.len() by construction of new_locations (c16_assign_vout_lt)
+  -- model: updateInscriptionLocation `output_utxo_entries[vout]` — vout < tx.output.len() by construction of new_locations (proved: `assignOutputs_vout` + length bookkeeping in `uilFinish_U`/`applyLocations_U`/`indexTxMid_U`)
   ("inscription_updater.rs", "index_inscriptions", "index", "&mut output_utxo_entries[usize::try_from(new_satpoint.outpoint.vout).unwrap()];"),
   -- usize→u32 / u32→usize `try_into`: bounded by the number of transactions / outputs of a block (block size ≤ 4 MB); not modelled
   ("inscription_updater.rs", "index_inscriptions", "unwrap", "&mut output_utxo_entries[usize::try_from(new_satpoint.outpoint.vout).unwrap()];"),
@@ -186,13 +186,13 @@ def expected : List (String × String × String × String) := [
   ("inscription_updater.rs", "update_inscription_location", "arith", "self.home_inscription_count += 1;"),
   -- u64 counter ≤ number of inscriptions
   ("inscription_updater.rs", "update_inscription_location", "arith", "self.unbound_inscriptions += 1;"),
-  -- model: `assert!(Index::is_special_outpoint(satpoint.outpoint))` — callers pass `None` only with the null outpoint, or unbound was set (c16_null_target_special)
+  -- model: `assert!(Index::is_special_outpoint(satpoint.outpoint))` — callers pass `None` only with the null outpoint, or unbound was set (proved: `uilFinish_U`, `applyLost_U`)
   ("inscription_updater.rs", "update_inscription_location", "assert", "assert!(Index::is_special_outpoint(satpoint.outpoint));"),
   -- `?` sites: errors of redb, the RPC client or a channel (environment, DESIGN §4): the model has no `.err` branch (c16_never_err)
   ("inscription_updater.rs", "update_inscription_location", "try-count", "18"),
-  -- Lot +=: model addLot `lot overflow` (mint) — supply bound (`SupplyOk`)
+  -- Lot +=: model addLot `lot overflow` (mint) — supply bound: PROVED unreachable on valid chains (rune lift C08, `RuneLift.rune_pass_ok`)
   ("rune_updater.rs", "index_runes", "arith", "*unallocated.entry(id).or_default() += amount;"),
-  -- Lot +=: model addLot `lot overflow` (premine) — discharged by the supply bound (C08 hypothesis `SupplyOk`)
+  -- Lot +=: model addLot `lot overflow` (premine) — discharged by the supply bound: PROVED unreachable on valid chains (rune lift C08, `RuneLift.rune_pass_ok`, `c16_no_failure_partial`)
   ("rune_updater.rs", "index_runes", "arith", "*unallocated.entry(id).or_default() +="),
   -- etched = Some only if runestone.etching is Some (fn etched); model createRuneEntry/`etching.bind`
   ("rune_updater.rs", "index_runes", "unwrap", "runestone.etching.unwrap().premine.unwrap_or_default();"),
@@ -200,11 +200,11 @@ def expected : List (String × String × String × String) := [
   ("rune_updater.rs", "index_runes", "unwrap", "let output = usize::try_from(output).unwrap();"),
   -- model: applyEdict `assert!(output <= tx.output.len())` — discharged by validChain.edictsInRange (what Runestone::decipher guarantees)
   ("rune_updater.rs", "index_runes", "assert", "assert!(output <= tx.output.len());"),
-  -- Lot -=: model allocate `lot underflow` — amounts are capped by the balance (c16_apply_edict_no_underflow)
+  -- Lot -=: model allocate `lot underflow` — amounts are capped by the balance (proved: `allocate_within`, `split_sum_le`, `applyEdict_within`)
   ("rune_updater.rs", "index_runes", "arith", "*balance -= amount;"),
-  -- model: allocate `allocated[output]` — output < tx.output.len() on this branch (c16_allocate_index)
+  -- model: allocate `allocated[output]` — output < tx.output.len() on this branch (proved: `allocate_within`, `applyEdict_within`)
   ("rune_updater.rs", "index_runes", "index", "*allocated[output].entry(id).or_default() += amount;"),
-  -- Lot +=: model allocate/addLot `lot overflow` (allocated[output]) — supply bound (`SupplyOk`)
+  -- Lot +=: model allocate/addLot `lot overflow` (allocated[output]) — supply bound: PROVED unreachable on valid chains (rune lift C08, `RuneLift.rune_pass_ok`)
   ("rune_updater.rs", "index_runes", "arith", "*allocated[output].entry(id).or_default() += amount;"),
   -- Lot / u128 with destinations non-empty (guarded by `!destinations.is_empty()`); model `balance / dests.length` under `dests.isEmpty = false`
   ("rune_updater.rs", "index_runes", "div", "let amount = *balance / destinations.len() as u128;"),
@@ -214,7 +214,7 @@ def expected : List (String × String × String × String) := [
   ("rune_updater.rs", "index_runes", "unwrap", "let remainder = usize::try_from(*balance % destinations.len() as u128).unwrap();"),
   -- Lot + 1 where amount = balance / n < balance when remainder > 0: ≤ balance < 2^128
   ("rune_updater.rs", "index_runes", "arith", "if i < remainder { amount + 1 } else { amount },"),
-  -- Lot +=: model addLot `lot overflow` (premine) — discharged by the supply bound (C08 hypothesis `SupplyOk`)
+  -- Lot +=: model addLot `lot overflow` (premine) — discharged by the supply bound: PROVED unreachable on valid chains (rune lift C08, `RuneLift.rune_pass_ok`, `c16_no_failure_partial`)
   ("rune_updater.rs", "index_runes", "arith", "*burned.entry(id).or_default() += balance;"),
   -- cenotaph case handled by the enclosing `if let Some(Artifact::Cenotaph(_))`; model matches on the artifact
   ("rune_updater.rs", "index_runes", "panic", "Artifact::Cenotaph(_) => unreachable!(),"),
@@ -222,23 +222,23 @@ def expected : List (String × String × String × String) := [
   ("rune_updater.rs", "index_runes", "assert", ".inspect(|&pointer| assert!(pointer < allocated.len()))"),
   -- vout is the checked pointer or the index of an existing output; model `alloc[v]?.getD`
   ("rune_updater.rs", "index_runes", "index", "*allocated[vout].entry(id).or_default() += balance;"),
-  -- Lot +=: model addLot `lot overflow` (premine) — discharged by the supply bound (C08 hypothesis `SupplyOk`)
+  -- Lot +=: model addLot `lot overflow` (premine) — discharged by the supply bound: PROVED unreachable on valid chains (rune lift C08, `RuneLift.rune_pass_ok`, `c16_no_failure_partial`)
   ("rune_updater.rs", "index_runes", "arith", "*allocated[vout].entry(id).or_default() += balance;"),
-  -- Lot +=: model addLot `lot overflow` (premine) — discharged by the supply bound (C08 hypothesis `SupplyOk`)
+  -- Lot +=: model addLot `lot overflow` (premine) — discharged by the supply bound: PROVED unreachable on valid chains (rune lift C08, `RuneLift.rune_pass_ok`, `c16_no_failure_partial`)
   ("rune_updater.rs", "index_runes", "arith", "*burned.entry(id).or_default() += balance;"),
   -- vout enumerates `allocated` which has tx.output.len() elements
   ("rune_updater.rs", "index_runes", "index", "if tx.output[vout].script_pubkey.is_op_return() {"),
-  -- Lot +=: model addLot `lot overflow` (premine) — discharged by the supply bound (C08 hypothesis `SupplyOk`)
+  -- Lot +=: model addLot `lot overflow` (premine) — discharged by the supply bound: PROVED unreachable on valid chains (rune lift C08, `RuneLift.rune_pass_ok`, `c16_no_failure_partial`)
   ("rune_updater.rs", "index_runes", "arith", "*burned.entry(*id).or_default() += *balance;"),
   -- usize→u32 / u32→usize `try_into`: bounded by the number of transactions / outputs of a block (block size ≤ 4 MB); not modelled
   ("rune_updater.rs", "index_runes", "unwrap", "vout: vout.try_into().unwrap(),"),
-  -- Lot +=: model addAllTo `lot overflow` (block burned) — supply bound (`SupplyOk`)
+  -- Lot +=: model addAllTo `lot overflow` (block burned) — supply bound: PROVED unreachable on valid chains (rune lift C08, `RuneLift.rune_pass_ok`)
   ("rune_updater.rs", "index_runes", "arith", "*self.burned.entry(id).or_default() += amount;"),
   -- `?` sites: errors of redb, the RPC client or a channel (environment, DESIGN §4): the model has no `.err` branch (c16_never_err)
   ("rune_updater.rs", "index_runes", "try-count", "8"),
-  -- model: flushBurned `id_to_entry.get(rune_id).unwrap()` — burned ids have entries (hypothesis `SupplyOk.burnedExist`; follows from C08 balances ⊆ entries)
+  -- model: flushBurned `id_to_entry.get(rune_id).unwrap()` — burned ids have entries: PROVED on valid chains (rune lift, `RuneLift.rune_pass_ok`)
   ("rune_updater.rs", "update", "unwrap", "let mut entry = RuneEntry::load(self.id_to_entry.get(&rune_id.store())?.unwrap().value());"),
-  -- model: flushBurned `entry.burned.checked_add(burned).unwrap()` — supply bound (`SupplyOk`)
+  -- model: flushBurned `entry.burned.checked_add(burned).unwrap()` — supply bound: PROVED unreachable on valid chains (rune lift C08, `RuneLift.rune_pass_ok`)
   ("rune_updater.rs", "update", "unwrap", "entry.burned = entry.burned.checked_add(burned.n()).unwrap();"),
   -- `?` sites: errors of redb, the RPC client or a channel (environment, DESIGN §4): the model has no `.err` branch (c16_never_err)
   ("rune_updater.rs", "update", "try-count", "2"),
@@ -278,7 +278,7 @@ def expected : List (String × String × String × String) := [
   ("rune_updater.rs", "unallocated", "unwrap", "let ((id, balance), len) = Index::decode_rune_balance(&buffer[i..]).unwrap();"),
   -- ≤ buffer.len()
   ("rune_updater.rs", "unallocated", "arith", "i += len;"),
-  -- Lot +=: model takeInputs/addLot `lot overflow` — supply bound (`SupplyOk`)
+  -- Lot +=: model takeInputs/addLot `lot overflow` — supply bound: PROVED unreachable on valid chains (rune lift C08, `RuneLift.rune_pass_ok`)
   ("rune_updater.rs", "unallocated", "arith", "*unallocated.entry(id).or_default() += balance;"),
   -- `?` sites: errors of redb, the RPC client or a channel (environment, DESIGN §4): the model has no `.err` branch (c16_never_err)
   ("rune_updater.rs", "unallocated", "try-count", "1")]
